@@ -90,6 +90,8 @@ def classify_segment_errors(errors: list, seg: dict) -> list:
             k = "seqNum"
         elif m.startswith("Failed to get MOOV box"):
             k = "moovMissing"
+        elif m.startswith("Sample duration is missing and the init segment has no trex"):
+            k = "trexMissing"
         elif m.startswith("Neither DASH timescale"):
             k = "zeroTimescale"
         elif re.fullmatch(rf"({_NUM}) !~= ({_NUM})", m):
@@ -217,7 +219,7 @@ def obs_token(status: int, data: bytes, content_type: str, rep: dict, trex_dur: 
     mime = rep.get("mime")
     ctype_ok = mime is None or content_type.startswith(mime)
     if status not in (200, 206):
-        return f"{status},{b(ctype_ok)},0,0,0,1,0,0,0,0,0,0,0;-;-;none"
+        return f"{status},{b(ctype_ok)},0,0,0,1,0,0,0,0,0,0,0,0;-;-;none"
     try:
         boxes = mp4walk.walk(data, iv_size=iv_size)
     except mp4walk.WalkError:
@@ -233,7 +235,7 @@ def obs_token(status: int, data: bytes, content_type: str, rep: dict, trex_dur: 
         emsg_ok = (emsg.fields["scheme_id_uri"], emsg.fields["value"]) in {tuple(x) for x in rep.get("inband", [])}
     if moof is None or mdat is None:
         return (f"{status},{b(ctype_ok)},{len(boxes)},{b(moof is not None)},{b(mdat is not None)},{b(emsg_ok)},"
-                f"0,0,0,0,0,0,0;-;-;none")
+                f"0,0,0,0,0,0,0,0;-;-;none")
     mfhd = mp4walk.find(moof, "mfhd")
     traf = mp4walk.find(moof, "traf")
     tfhd = mp4walk.find(moof, "traf/tfhd")
@@ -248,12 +250,16 @@ def obs_token(status: int, data: bytes, content_type: str, rep: dict, trex_dur: 
     if trun.fields["data_offset"] is None:
         return None
     dsize = tfhd.fields.get("default_sample_size")
-    ddur = tfhd.fields.get("default_sample_duration") or trex_dur
+    own_dur = tfhd.fields.get("default_sample_duration") or None
     samples = []
+    needs_trex = False
     for s in trun.fields["samples"]:
         size = s["size"] if s["size"] is not None else dsize
-        dur = s["duration"] if s["duration"] is not None else ddur
-        if size is None or dur is None:
+        dur = s["duration"] if s["duration"] is not None else own_dur
+        if dur is None:
+            needs_trex = True
+            dur = trex_dur if trex_dur is not None else 0
+        if size is None:
             return None
         samples.append(f"{size}:{dur}:{s['cto'] or 0}")
     senc = mp4walk.find(moof, "traf/senc")
@@ -270,15 +276,15 @@ def obs_token(status: int, data: bytes, content_type: str, rep: dict, trex_dur: 
         saio_tok = ",".join(map(str, saio.fields["offsets"])) or "-"
     head = [status, b(ctype_ok), len(boxes), 1, 1, b(emsg_ok), mfhd.fields["sequence_number"],
             tfdt.fields["base_media_decode_time"], base, trun.fields["data_offset"],
-            mdat.start, mdat.header_size, mdat.size]
+            mdat.start, mdat.header_size, mdat.size, b(needs_trex)]
     return ",".join(map(str, head)) + ";" + ("/".join(samples) or "-") + ";" + senc_tok + ";" + saio_tok
 
 
-def ctx_token(rep: dict, opt_encrypted: bool) -> str:
+def ctx_token(rep: dict, opt_encrypted: bool, has_trex: bool = True) -> str:
     return ",".join([
         b(rep["content_type"] == "video"), b(opt_encrypted), b(rep["encrypted"]), b(rep["iv_size"] is not None),
         b(rep["media_ts"] is not None), str(rep["dash_ts"]), opt(rep["media_ts"]), str(rep["start_number"]),
-        opt(rep["tmpl_duration"]), "0"])
+        opt(rep["tmpl_duration"]), "0", b(has_trex)])
 
 
 def exp_token(seg: dict) -> str:
